@@ -6,6 +6,8 @@ def run(m, tier):
     results = shapes_rules.c01_rules(m)
     from rules import engine_tables
     results.append(engine_tables.word_cls_rule(m, "C01.R9"))
+    from rules import taint_rules
+    results.append(taint_rules.dead_pieces_rule(m, "C01.R4"))
     from rules import C02
     for fn, rid in ((C02.r2_replace_map, "C01.R5"), (C02.r6_inverse_map, "C01.R6"), (C02.r7_restore_order, "C01.R7")):
         rr_ = fn(m)
